@@ -11,7 +11,7 @@
 (*   - every truncation point (0 .. total-1: before / inside / after every *)
 (*     field),                                                             *)
 (*   - for every length or count field the values 0, actual-1, actual+1,   *)
-(*     remaining+1 and the maximum of its width,                           *)
+(*     actual/2, remaining+1 and the maximum of its width,                 *)
 (*   - for every tag / version byte every other valid value and the first  *)
 (*     invalid one,                                                        *)
 (*   - for every element of a group: drop it and duplicate it, with the    *)
@@ -141,10 +141,10 @@ ExpShape(v, x, es) == [fmt |-> "ExportedTx", p |-> [ver |-> v, extraLen |-> x, e
 ExpShapesOK == {ExpShape(1, x, es) : x \in {-1, 2}, es \in EntryLists} \cup {ExpShape(0, -1, es) : es \in EntryListsV0}
 
 AppMdShapes == {[fmt |-> "AppMetadata", p |-> [pairs |-> ps], f |-> AppMd(ps)] :
-                  ps \in {<<>>, << <<1, 0>> >>, << <<3, 8>> >>, << <<2, 1>>, <<4, 8>> >>, << <<1, 8>>, <<2, 8>>, <<3, 0>> >>}}
+                  ps \in {<<>>, << <<3, 8>> >>, << <<2, 1>>, <<4, 8>> >>, << <<1, 8>>, <<2, 0>>, <<3, 8>> >>}}
 \* the metadata singleapp itself writes: 3 integer items and the wrapped metadata (keys of 13, 18, 17 and 16 bytes)
 SingleAppMd(wrapped) == AppMd(<< <<13, 8>>, <<18, 8>>, <<17, 8>>, <<16, wrapped>> >>)
-AppFileShapes == {[fmt |-> "AppFile", p |-> [wrapped |-> w, payload |-> pl], f |-> AppFile(SingleAppMd(w), pl)] : w \in {0, 5}, pl \in {0, 7}}
+AppFileShapes == {[fmt |-> "AppFile", p |-> [wrapped |-> w, payload |-> pl], f |-> AppFile(SingleAppMd(w), pl)] : w \in {0, 5}, pl \in {7}}
 
 PgShapes ==
   {[fmt |-> "PgParse", p |-> [nameLen |-> a, queryLen |-> 8, ntypes |-> n], f |-> PgParse(a, 8, n)] : a \in {0, 2}, n \in {0, 2}}
@@ -177,6 +177,7 @@ LenValues(fs, i) ==
   LET v == fs[i].v
       rem == Size(fs) - Off(fs, i) - fs[i].sz
   IN {<<0, "zero">>, <<v - 1, "minus1">>, <<v + 1, "plus1">>, <<rem + 1, "remaining+1">>, <<MAXV, "max">>}
+     \cup (IF v >= 4 THEN {<<v \div 2, "half">>} ELSE {})     \* cuts an enclosed structure in the middle
 SetLens(fs) ==
   UNION {{[op |-> "set", at |-> Off(fs, i), w |-> fs[i].sz, val |-> x[1], to |-> 0, cat |-> 0, cw |-> 0, cval |-> 0, field |-> fs[i].n, how |-> x[2]]
             : x \in {y \in LenValues(fs, i) : (y[1] >= 0 \/ y[1] = MAXV) /\ y[1] # fs[i].v}}
@@ -245,7 +246,7 @@ ProofMsgs ==
 ProofOps(k) == CASE k = "msg" -> {"nil"}
                  [] k = "digest" -> {"nil", "short", "long"}
                  [] k = "digests" -> {"nil", "drop-element", "dup-element", "short-element", "nil-element"}
-                 [] k = "msgs" -> {"nil", "drop-element", "dup-element", "nil-element"}
+                 [] k = "msgs" -> {"nil", "drop-element", "dup-element"}     \* (a nil element cannot be expressed on the wire)
 ProofMuts == UNION {UNION {{[msg |-> m, field |-> ProofMsgs[m][i].n, kind |-> ProofMsgs[m][i].k, op |-> o] : o \in ProofOps(ProofMsgs[m][i].k)}
                               : i \in 1..Len(ProofMsgs[m])} : m \in DOMAIN ProofMsgs}
 
